@@ -110,8 +110,65 @@ def fuzz_worker(job):
     return part.result()
 
 
+MD_USERS = [('bob', 'pwbob'), ('\uff42ob', 'pwfw'), ('bob\u00ad', 'pwsh'), ('BOB', 'pwcap'), ('b\u043eb', 'pwcyr'), ('carol', 'pwcarol')]
+
+
+async def maildir_authz(part, r):
+    """maildir backend: accounts whose names look alike (fullwidth letter, soft hyphen, capitals, a Cyrillic letter) are different users; each authenticates
+    with its own password and asks to act as each of the others — none of them holds the admin role"""
+    from pymap.imap import IMAPServer
+    from .common import backends
+    base = backends.scratch_dir('pymap-verif-c09-')
+    try:
+        config, login = await backends.make_maildir(base, users=[(u, p, ()) for u, p in MD_USERS], bad_command_limit=None)
+        srv = IMAPServer(login, config)
+        # a mailbox named after its owner, so that the identity a connection acts as can be observed
+        for k, (u, p) in enumerate(MD_USERS):
+            c = wire.Client(srv)
+            await c.start()
+            await c.send(b't AUTHENTICATE PLAIN\r\n')
+            raw = await c.send(base64.b64encode(b'\0' + u.encode() + b'\0' + p.encode()) + b'\r\n')
+            if b't OK' not in raw:
+                part.violation('monitor', f'maildir: user {u!r} cannot authenticate with its own password: {raw[-100:]!r}', dict(scenario='maildir-authz', user=u), signature='md-own-login')
+            await c.send(b't CREATE owner%d\r\n' % k)
+            await c.eof()
+        pairs = [(a, z) for a in range(len(MD_USERS)) for z in range(len(MD_USERS))]
+        r.shuffle(pairs)
+        for a, z in pairs[:18]:
+            (au, ap), (zu, _) = MD_USERS[a], MD_USERS[z]
+            c = wire.Client(srv)
+            await c.start()
+            await c.send(b't AUTHENTICATE PLAIN\r\n')
+            raw = await c.send(base64.b64encode(zu.encode() + b'\0' + au.encode() + b'\0' + ap.encode()) + b'\r\n')
+            case = dict(scenario='maildir-authz', authcid=au, authzid=zu)
+            part.case(key=f'md-authz:{a}:{z}', nontrivial=a != z)
+            ok = b't OK' in raw
+            if a != z and ok:
+                seen = await c.send(b't LIST "" owner%\r\n')
+                part.violation('monitor', f'maildir: {au!r} (no admin role) authenticated with its own password and was authorized as the different user {zu!r}; '
+                               f'LIST shows {seen[:80]!r}', case, signature='md-authz-crossed')
+            elif a == z:
+                seen = await c.send(b't LIST "" owner%\r\n')
+                if not ok or (b'owner%d' % a) not in seen or any((b'owner%d' % o) in seen for o in range(len(MD_USERS)) if o != a):
+                    part.violation('monitor', f'maildir: {au!r} authenticating as itself: {raw[-80:]!r}, LIST {seen[:120]!r}', case, signature='md-authz-self')
+            await c.eof()
+    finally:
+        backends.rmtree(base)
+
+
+def maildir_worker(job):
+    seed, n = job
+    r = random.Random(seed)
+    part = Part()
+    for k in range(n):
+        with guarded(part, 'C09 maildir authz', dict(scenario='maildir-authz', seed=seed, k=k)):
+            asyncio.run(maildir_authz(part, r))
+    return part.result()
+
+
 def run(ctx):
     c05.run(ctx, prop='C09', core=CORE, alpha=ALL)
+    ctx.pmap(maildir_worker, [(ctx.seed * 53 + k, ctx.budget(1, 6)) for k in range(min(ctx.workers, 4))])
     ctx.rep.rule = ('sequences over every way to present credentials (LOGIN, SASL PLAIN/LOGIN; right/wrong password, unknown user, authzid with and without admin role, cancel, '
                     'malformed base64, unknown mechanism) x {STARTTLS, LOGOUT, probes}, exhaustive to length 2 (thorough 3) in three TLS/peer configurations, random to length 14; '
                     'plus random credential byte strings (monitor only) and the ManageSieve listener; non-trivial = at least two different commands; distinct by sequence')
@@ -128,8 +185,8 @@ def run(ctx):
 
 def replay(case):
     case = case.get('case', case)
-    if case.get('scenario') == 'fuzz':
-        print('fuzz case (log):', case.get('log'))
+    if case.get('scenario') in ('fuzz', 'maildir-authz'):
+        print('case:', case)
         return 0
     if case.get('scenario', '').startswith('sieve'):
         from . import c19
